@@ -176,6 +176,11 @@ func c17Request(r *rng, special int) {
 		}
 		bodyKind := []int{0, 1, 2, 2, 2}[r.intn(5)]
 		g.goUnsafeEsc = r.chance(25)
+		// every legal carrier of the same sources: constructor and (for form bodies) the content type / encoding of the body
+		c17Carrier = hCarrier{ctor: []int{0, 0, 1, 2}[r.intn(4)], formCT: []int{0, 0, 1, 2, 3}[r.intn(5)]}
+		if big {
+			c17Carrier = hCarrier{}
+		}
 		density := []int{15, 40, 75}[r.intn(3)]
 		var pops []hPop
 		for _, s := range g.structs {
@@ -250,8 +255,13 @@ func c17Request(r *rng, special int) {
 			if err != nil {
 				die("C17: request: %v", err)
 			}
-			view := requestView(req, keys)
-			view = append(view, fi(bodyKind))
+			view := requestView(req, keys, intended)
+			// body kind for the checker: 1 = form body whose values are also the body map, 3 = form body through another carrier
+			bk := bodyKind
+			if bodyKind == 1 && !c17Carrier.bodyMapIsForm() {
+				bk = 3
+			}
+			view = append(view, fi(bk))
 			view = append(view, intendedView(intended.q, intended.form, intended.hdr, intended.params, keys)...)
 			ctx := context.WithValue(context.Background(), conv.CtxKeyHTTPRequest, http.RequestGetter(req))
 			ctx = context.WithValue(ctx, conv.CtxKeyConvOptions, c17Opts(bits)) // read by api.no_body_struct
